@@ -1,7 +1,6 @@
 package keeper
 
 import (
-	"bytes"
 	"encoding/json"
 	"math/big"
 	"time"
@@ -387,16 +386,18 @@ func (k Keeper) GetOwnerServiceBindings(ctx sdk.Context, owner sdk.AccAddress, s
 
 	bindings := make([]*types.ServiceBinding, 0)
 
-	iterator := sdk.KVStorePrefixIterator(store, types.GetOwnerBindingsSubspace(owner, serviceName))
+	prefix := types.GetOwnerBindingsSubspace(owner, serviceName)
+
+	iterator := sdk.KVStorePrefixIterator(store, prefix)
 	defer iterator.Close()
 
 	for ; iterator.Valid(); iterator.Next() {
-		bindingKey := iterator.Key()[sdk.AddrLen+1:]
-		sepIndex := bytes.Index(bindingKey, types.EmptyByte)
-		serviceName := string(bindingKey[0:sepIndex])
-		provider := sdk.AccAddress(bindingKey[sepIndex+1:])
+		// the index key holds owner and service name back to back, without a length: what
+		// follows the scanned prefix is the provider of a binding of this owner and service
+		// only if that binding exists and belongs to the owner
+		provider := sdk.AccAddress(iterator.Key()[len(prefix):])
 
-		if binding, found := k.GetServiceBinding(ctx, serviceName, provider); found {
+		if binding, found := k.GetServiceBinding(ctx, serviceName, provider); found && binding.Owner.Equals(owner) {
 			bindings = append(bindings, &binding)
 		}
 	}
